@@ -26,6 +26,22 @@ fn main() {
     let owner = [1u8, b'x', 2, b'Y', b'z', 0];
     for i in 0..n {
         g.big = i % 40 == 7;
+        if i % 20 == 3 {
+            // the bitmap builder with an arbitrary sequence of add calls
+            let n = 1 + g.rng.below(10);
+            let mut adds: Vec<u16> = vec![];
+            for _ in 0..n {
+                let w = *g.rng.pick(&[0u16, 0, 1, 4, 255, 2, 77]);
+                adds.push(w * 256 + g.rng.below(256) as u16);
+                if g.rng.chance(1, 5) {
+                    let d = *g.rng.pick(&adds);
+                    adds.push(d);
+                }
+            }
+            let octets = observe(|| json!(rdata::build_bitmap(&adds).as_slice()));
+            tw.event(json!({"ev": "bm", "adds": adds, "octets": octets}));
+            continue;
+        }
         let (code, may, mut rd) = random_rdata(&mut g, &table, 12);
         // damage some inputs
         let mut damaged = true;
